@@ -97,6 +97,18 @@ func plan(tier string, seed int64) []driver.Case {
 		if e.Flags.Has(catalog.Blocks) {
 			continue
 		}
+		// one source emits a value while it is being subscribed (a cached value followed by live
+		// ones) and goes on afterwards: the operator has to treat that value like any other, and
+		// keep listening to the source if the definition does
+		hv := 2
+		if e.NSrc >= 3 {
+			hv = 1
+		}
+		for head := 0; head < e.NSrc; head++ {
+			for _, t := range tuples(e.NSrc, hv) {
+				cases = append(cases, driver.Case{ID: fmt.Sprintf("seq-head%d/%s/%s", head, e.Name, key(t)), P: map[string]string{"kind": "seq", "entry": e.Name, "scripts": key(t), "head": fmt.Sprint(head)}})
+			}
+		}
 		for i := 0; i < nConc; i++ {
 			var t []src.Script
 			for s := 0; s < e.NSrc; s++ {
@@ -122,7 +134,7 @@ func (e event) String() string { return fmt.Sprintf("s%d:%s", e.Src, e.N) }
 
 // interleavings enumerates, with the model alone, every order in which the
 // scripts can be injected (only sources the model considers live can emit).
-func interleavings(e *catalog.Entry, scripts []src.Script, limit int) [][]event {
+func interleavings(e *catalog.Entry, scripts []src.Script, limit int, head int) [][]event {
 	var out [][]event
 	pos := make([]int, len(scripts))
 	var dfs func(st catalog.Step, path []event)
@@ -146,7 +158,11 @@ func interleavings(e *catalog.Entry, scripts []src.Script, limit int) [][]event 
 			out = append(out, path)
 		}
 	}
-	dfs(e.Step(len(scripts)), nil)
+	st0 := e.Step(len(scripts))
+	if head >= 0 && st0.Live(head) {
+		st0.On(head, headNotif(head))
+	}
+	dfs(st0, nil)
 	return out
 }
 
@@ -158,11 +174,19 @@ type harness struct {
 	subDone chan struct{}
 }
 
-func setup(e *catalog.Entry) *harness {
+// headNotif is the value source i emits inside its subscribe function when it is the "head" source.
+func headNotif(i int) src.Notif { return src.Notif{K: rec.Next, V: 90 + i} }
+
+func setup(e *catalog.Entry) *harness { return setupHead(e, -1) }
+
+func setupHead(e *catalog.Entry, head int) *harness {
 	h := &harness{e: e, rec: rec.New(e.Name), subDone: make(chan struct{})}
 	b := &catalog.B{}
 	for i := 0; i < e.NSrc; i++ {
 		s := src.New(fmt.Sprintf("s%d", i))
+		if i == head {
+			s.Scripts = []src.Script{{headNotif(i)}}
+		}
 		h.srcs = append(h.srcs, s)
 		b.Srcs = append(b.Srcs, s.Observable())
 	}
@@ -212,20 +236,37 @@ func runSeq(c driver.Case) driver.Result {
 	e := catalog.Get(c.Get("entry"))
 	scripts := parse(c.Get("scripts"))
 	res := driver.Result{Verdict: driver.Held}
-	paths := interleavings(e, scripts, 4000)
+	head := -1
+	if c.Get("head") != "" {
+		head = c.Int("head")
+	}
+	paths := interleavings(e, scripts, 4000, head)
 	var orders int64
 	sigs := map[string]bool{}
 	for _, path := range paths {
-		h := setup(e)
+		h := setupHead(e, head)
 		st := e.Step(e.NSrc)
 		var want []string
 		var wantTerm *catalog.Term
+		headLive := head >= 0 && st.Live(head) // a source the operator never subscribes emits nothing
+		if headLive {
+			want, wantTerm = st.On(head, headNotif(head))
+		}
 		fail := func(keyS, msg string) driver.Result {
 			res.Verdict, res.Key = driver.Violated, keyS
 			res.Msg = fmt.Sprintf("%s with source scripts [%s], arrival order %v: %s; observed so far: [%s], definition: [%s]", e.Name, c.Get("scripts"), path, msg, h.rec.TraceString(), strings.Join(want, " "))
 			res.Witness = map[string]any{"order": fmt.Sprint(path), "trace": h.rec.Trace()}
 			h.cleanup()
 			return res
+		}
+		if headLive {
+			exp := catalog.Expect{Vals: want}
+			if wantTerm != nil {
+				exp.Term = *wantTerm
+			}
+			if m := exp.Match(h.rec.Events()); m != "" {
+				return fail("C05/"+canon(e.Family)+"/output-differs-after-value-emitted-during-subscription", fmt.Sprintf("source %d emits %s inside its subscribe function: %s", head, headNotif(head), m))
+			}
 		}
 		// initial subscription state
 		for i, s := range h.srcs {
